@@ -16,7 +16,7 @@ from ..loader import AnalysisError, ClassInfo, FuncInfo, Program
 from ..model import Model
 from ..partial import RENDER_SAFE, escapes, kind_on_path
 from ..report import Run
-from ..values import (NIL, Const, ExcV, Inst, ListV, StrV, Sym, Term, V)
+from ..values import (NIL, Const, ExcV, Inst, ListV, StrV, Sym, Term, TupleV, V)
 from ..visits import configs_for, run_visit, validator_ctx
 
 VALIDATORS = ("Validator", "SubstitutorValidator")
@@ -257,6 +257,8 @@ def _no_errors_fact(t: Any, b: bool) -> bool:
         for x, y in ((a0, a1), (a1, a0)):
             if isinstance(x, Const) and x.value == 0 and not isinstance(x.value, bool) and length_of_errors(y):
                 return b is True
+            if isinstance(x, (ListV, TupleV)) and x.concrete() and not x.items and is_errors(y):
+                return b is True            # errors == []
     if isinstance(t, Term) and t.op == "lt" and len(t.args) == 2:
         a0, a1 = t.args
         if isinstance(a0, Const) and a0.value == 0 and length_of_errors(a1):
